@@ -27,6 +27,28 @@ PANIC_CALLS = (
 )
 NOT_PANIC = ("unwrap_or", "unwrap_or_else", "unwrap_or_default", "expect_err")
 
+# Inherent methods of the std containers: many of them index or split and panic on a bad position (`drain(..3)` on a shorter
+# VecDeque).  They are classified by name: the never-panicking ones below, everything else — documented panickers and methods
+# this table has never seen — is a panic site that needs a discharge rule or an audited allowlist entry.
+CONTAINER_PREFIXES = ("alloc::collections::vec_deque::VecDeque", "alloc::vec::Vec", "alloc::string::String", "core::slice::<impl [T]>",
+                      "core::str::<impl str>", "alloc::str::<impl str>", "alloc::slice::<impl [T]>", "core::array::<impl [T; N]>")
+CONTAINER_SAFE = frozenset("""
+new with_capacity len is_empty capacity reserve reserve_exact shrink_to_fit clear push push_str push_back push_front pop pop_front
+pop_back get get_mut first last first_mut last_mut front back front_mut back_mut iter iter_mut into_iter as_slice as_mut_slice
+as_bytes as_str as_mut_str as_ptr as_mut_ptr bytes chars char_indices lines split splitn rsplit rsplitn split_once rsplit_once
+split_terminator split_whitespace split_ascii_whitespace split_first split_last split_first_mut split_last_mut split_inclusive
+contains starts_with ends_with find rfind position strip_prefix strip_suffix trim trim_start trim_end trim_matches
+trim_start_matches trim_end_matches parse to_owned to_string to_vec into_bytes into_boxed_slice into_boxed_str to_lowercase
+to_uppercase to_ascii_lowercase to_ascii_uppercase make_ascii_lowercase make_ascii_uppercase eq_ignore_ascii_case is_ascii
+is_char_boundary extend extend_from_slice append retain retain_mut dedup dedup_by_key sort sort_unstable sort_by sort_by_key
+sort_unstable_by sort_unstable_by_key reverse fill binary_search binary_search_by binary_search_by_key concat join iter_mut
+from_utf8 from_utf8_lossy from_utf8_unchecked from_utf8_unchecked_mut from_raw_parts matches match_indices rmatches
+contains_key entry insert_entry get_or_insert_with keys values values_mut get_key_value remove_entry map
+is_sorted partition_point escape_ascii escape_debug escape_default encode_utf16 truncate_vec as_ref as_mut borrow borrow_mut
+make_contiguous as_slices as_mut_slices split_at_checked split_at_mut_checked first_chunk last_chunk get_unchecked get_unchecked_mut
+utf8_chunks char_count chunk_by repeat
+""".split())
+
 
 def is_panic_call(callee):
     if not callee:
@@ -36,6 +58,9 @@ def is_panic_call(callee):
         return False
     if any(callee.startswith(p) for p in PANIC_CALLS):
         return True
+    if any(callee.startswith(p) for p in CONTAINER_PREFIXES):
+        # String::truncate / Vec::truncate: only the former panics (char boundary); both are treated as sites
+        return last not in CONTAINER_SAFE
     if "core::ops::index::Index" in callee and callee.split("::")[-1] in ("index", "index_mut"):
         return True
     if "core::ops::arith::" in callee or "core::ops::bit::Sh" in callee:
